@@ -27,7 +27,7 @@ RULE = ('Healthy generated rule files into which freely ill-typed / partial ("wi
 ASSUMPTIONS = ['which items "fail" is observed through the public evaluate_transaction/evaluate API raising ExpressionError',
                'string literals inside dynamic tags contain no parentheses or commas (documented tag-splitting rule)']
 REQUIRED_CLASSES = ['fail_match', 'fail_let', 'fail_field', 'fail_tag', 'fail_variable', 'fail_transform', 'fail_view_filter',
-                    'err_TypeError', 'err_ExpressionError', 'csv_pipeline']
+                    'err_TypeError', 'err_ExpressionError', 'csv_pipeline', 'never_evaluable_rule']
 
 
 def tag_safe(e):
@@ -49,7 +49,7 @@ def rules_case(draw):
     rs = [dict(r) for r in rf['rules']]
     # inject wild expressions
     for _ in range(draw(st.integers(1, 4))):
-        where = draw(st.sampled_from(['match', 'match', 'let', 'field', 'tag', 'var', 'transform', 'newrule', 'shadow_fail', 'shared_let']))
+        where = draw(st.sampled_from(['match', 'match', 'let', 'field', 'tag', 'var', 'transform', 'newrule', 'shadow_fail', 'shared_let', 'never']))
         w = draw(lang.wild_expr(2))
         if where == 'shadow_fail':
             # rule A binds (by let) a name that a LATER let-free rule B reads as a top-level variable / data source / primitive, and A's own match fails for the item:
@@ -67,6 +67,15 @@ def rules_case(draw):
             if name in ('threshold', 'is_large', 'label') and not any(v[0] == name for v in rf['vars']):
                 gv = {'threshold': ['num', 50], 'is_large': ['cmp', ['name', 'amount'], [['>', ['num', 100]]]], 'label': ['name', 'description']}[name]
                 rf = dict(rf, vars=list(rf['vars']) + [[name, gv]])
+            continue
+        if where == 'never' and not any(r_['name'] == 'Never Evaluable' for r_ in rs):
+            # a rule whose condition can NEVER be evaluated (a bad regular expression is evaluated whatever the transaction): it never applies -
+            # not the first time, not the hundredth time the same pattern text is met in the process
+            bad = draw(st.sampled_from(lang.BAD_REGEX))
+            m = draw(st.sampled_from([['not', ['match', 'regex', None, bad]], ['or', [['match', 'regex', None, bad], ['lit', True]]],
+                                      ['cmp', ['call', 'extract', [['str', bad]]], [['==', ['str', '']]]], ['if', ['match', 'regex', None, bad], ['lit', True], ['lit', True]]]))
+            rs.insert(draw(st.integers(0, len(rs))), {'name': 'Never Evaluable', 'match': m, 'category': draw(st.sampled_from(['', 'NeverCat'])), 'subcategory': '', 'merchant': None,
+                                                     'priority': None, 'tags': ['never-evaluable'], 'lets': [], 'fields': []})
             continue
         if where == 'shared_let':
             # two rules carry the textually SAME let; in the earlier rule it cannot be evaluated (it reads a name only the later rule binds first),
@@ -88,7 +97,10 @@ def rules_case(draw):
             rs.insert(draw(st.integers(0, len(rs))), {'name': 'Wild', 'match': w, 'category': draw(st.sampled_from(['', 'WildCat'])), 'subcategory': '',
                                                      'merchant': None, 'priority': None, 'tags': ['wild'], 'lets': [], 'fields': []})
             continue
-        i = draw(st.integers(0, len(rs) - 1))
+        editable = [j for j, r_ in enumerate(rs) if r_['name'] != 'Never Evaluable']
+        if not editable:
+            continue
+        i = draw(st.sampled_from(editable))
         r = rs[i]
         if where == 'match':
             r['match'] = draw(st.sampled_from([w, ['and', [r['match'], w]], ['or', [w, r['match']]]]))
@@ -232,6 +244,12 @@ def check(case, stats: Stats):
             if outcome(ra) != outcome(base):
                 raise Violation(f'outcome changes when the failing transforms/variables are removed and failing lets bound to None:\n  {outcome(base)}\n  {outcome(ra)}\n'
                                 f'{tc}\n--- original\n{text}\n--- neutralised\n{R.render_file(rf_a)}', case, 'removal:items')
+        # --- (a') a rule whose condition can never be evaluated never applies
+        if 'Never Evaluable' in base['matching'] or 'never-evaluable' in base['tags']:
+            raise Violation(f"the rule [Never Evaluable] (its condition evaluates a bad regular expression for every transaction) was applied to {tc}:\n  {outcome(base)}\n{text}", case,
+                            'never-evaluable-applied')
+        if any(r['name'] == 'Never Evaluable' for r in rf['rules']):
+            classes.add('never_evaluable_rule')
         # --- (b) rules that do not match when loaded alone do not exist for this transaction
         alone = []
         for r in rf['rules']:
